@@ -247,6 +247,27 @@ def check(fx, rep, tier):
         )
         # coverage of (kind, flag) combinations by the recording sites inside the arm
         arm_sites = [x for x in site_info if x["fn"] == ml["def"] and not x["built"] and any(y is x["node"] for y, _ in F.walk(body))]
+        # recording delegated to a helper that receives the error: its sites count, under the condition of the call
+        ev_ml = evals.get(ml["def"]) or KindFlagEval(fx, ml["hir"]["value"], all_kinds)
+        for c, cps in F.calls(body):
+            for callee in cg.resolve_local(c):
+                helper_sites = [x for x in site_info if x["fn"] == callee and not x["built"]]
+                if not helper_sites or callee == ml["def"]:
+                    continue
+                full_ps = None
+                for n0, ps0 in F.walk(ml["hir"]["value"]):
+                    if n0 is c:
+                        full_ps = ps0
+                        break
+                for x in helper_sites:
+                    tbl = {}
+                    for k in all_kinds:
+                        for p in FLAGS:
+                            r_call = ev_ml.reach(full_ps, c, k, p) if full_ps is not None else None
+                            r_site = x["table"].get((k, p))
+                            tbl[(k, p)] = False if (r_call is False or r_site is False) else (True if (r_call is True and r_site is True) else None)
+                    arm_sites.append({"fn": callee, "node": x["node"], "ps": x["ps"], "table": tbl, "kinds": x["kinds"], "built": False, "key": x["key"]})
+
         def recorded(k, p):
             return any(x["table"].get((k, p)) is True for x in arm_sites)
         missing_other = sorted(k for k in set(all_kinds) - JUMP_KINDS if not (recorded(k, False) and recorded(k, True)))
